@@ -38,14 +38,42 @@ theorem c16_core_total (env : Env) (c : Cluster) : ∃ errs, validateUpstreamClu
 
 /-! ## Updates are validated like creates -/
 
-/-- `Validate` does not read the operation or the old object: whatever an update changes (spec, annotations, labels,
-    nothing), the new object goes through the whole validation -/
+/-- `Validate` is the same function of the object for every operation - create, update, a write through the status
+    subresource - and does not read the old object: whatever an update changes (spec, annotations, labels, nothing),
+    the object about to be stored goes through the whole validation. (For status writes this rests on the guard
+    `shouldIgnore(a) && !isStatusUpdate(a)`, regenerated as `Gen.C16.statusValidated`.) -/
 theorem c16_validate_independent_of_old (env : Env) (known : List Known) (op op' : Operation) (old old' : Option Cluster)
-    (c : Cluster) : validateAdmission env known op old c = validateAdmission env known op' old' c := rfl
+    (c : Cluster) : validateAdmission env known op old c = validateAdmission env known op' old' c := by
+  simp [validateAdmission, Gen.C16.statusValidated]
 
 theorem c16_admission_accepts_iff_valid (env : Env) (known : List Known) (op : Operation) (old : Option Cluster)
-    (c : Cluster) : validateAdmission env known op old c = .ok [] ↔ valid env known c = true :=
-  validate_ok_iff_valid env known c
+    (c : Cluster) : validateAdmission env known op old c = .ok [] ↔ valid env known c = true := by
+  simp only [validateAdmission, Gen.C16.statusValidated, Bool.not_true, Bool.and_false, Bool.false_eq_true, if_false]
+  exact validate_ok_iff_valid env known c
+
+/-- the verdict does not depend on the life-cycle state the API server presents the object in (terminating with
+    finalizers, any generation / resource version / managed fields / owner references / labels): only on what
+    `ValidateObjectMeta` says about their syntax (`metaErrs`) -/
+theorem c16_validate_independent_of_lifecycle (env : Env) (known : List Known) (op : Operation) (old : Option Cluster)
+    (c : Cluster) (l : Lifecycle) :
+    validateAdmission env known op old { c with lifecycle := l } = validateAdmission env known op old c := by
+  have hconf : validateConflicts env { c with lifecycle := l } known = validateConflicts env c known := by
+    induction known with
+    | nil => rfl
+    | cons u rest ih => simp only [validateConflicts, ih]
+  simp only [validateAdmission, validate, validateUpstreamCluster, validateUpstreamClusterSpec, validateFeatureGate, hconf]
+
+/-- a write through the status subresource stores the old spec and labels with the REQUEST's annotations
+    (`prepareForStatusUpdate`); it is admitted only if that object is valid - e.g. not with an unparsable feature-gate
+    annotation -/
+theorem c16_status_write_validated (env : Env) (known : List Known) (old req : Cluster)
+    (h : validateAdmission env known .statusUpdate (some old) (prepareForStatusUpdate old req) = .ok []) :
+    valid env known (prepareForStatusUpdate old req) = true ∧
+    featureGateOK env { old with annotations := req.annotations } = true := by
+  have hv := (c16_admission_accepts_iff_valid env known .statusUpdate (some old) _).mp h
+  refine ⟨hv, ?_⟩
+  simp only [valid, Bool.and_eq_true] at hv
+  exact hv.1.2
 
 /-- in particular an update that leaves the spec untouched and writes an unparsable feature-gate annotation is
     rejected -/
@@ -318,6 +346,18 @@ theorem c16_sufficient_update_admission (env : Env) (henv : EnvOK env) (known kn
   obtain ⟨ci', hs, _⟩ := c16_sufficient_update env henv known c h ci happ
   exact ⟨ci, hci, ci', hs⟩
 
+/-- ... and so can an admitted status write: what it stores syncs on the `ClusterInfo` created from the old object -/
+theorem c16_sufficient_status_write (env : Env) (henv : EnvOK env) (known known' : List Known) (old req : Cluster)
+    (hold : validateAdmission env known' .create none old = .ok [])
+    (h : validateAdmission env known .statusUpdate (some old) (prepareForStatusUpdate old req) = .ok []) (remote : Bool) :
+    ∃ ci, createClusterInfo env remote old = .ok ci ∧ ∃ ci', ci.sync env (prepareForStatusUpdate old req) = .ok ci' := by
+  obtain ⟨ci, hci, happ⟩ := c16_created_applicable env henv known' old
+    ((c16_admission_accepts_iff_valid env known' .create none old).mpr ((c16_admission_accepts_iff_valid env known' .create none old).mp hold) |>
+      (c16_accepts_iff_valid env known' old).mpr ∘ (c16_admission_accepts_iff_valid env known' .create none old).mp) remote
+  obtain ⟨ci', hs, _⟩ := c16_sufficient_update env henv known _
+    ((c16_accepts_iff_valid env known _).mpr ((c16_admission_accepts_iff_valid env known .statusUpdate (some old) _).mp h)) ci happ
+  exact ⟨ci, hci, ci', hs⟩
+
 /-- the controller's queue handler bootstraps an accepted object: no panic, no requeue (`Err.err`), provided the
     manager only holds names of clusters the lister (against which the object was validated) knows -/
 theorem c16_sufficient_controller (env : Env) (henv : EnvOK env) (known : List Known) (c : Cluster)
@@ -371,6 +411,43 @@ theorem c16_expected_sizes (s : Schema) (h : schemaOK s = true) :
   cases exempt <;> cases m <;> cases tb <;> cases gm <;> cases gtb <;>
     simp [schemaOK, shapeOf, Shape.inRange] at h <;>
     simp [entryOf, expectedLocal, shapeOf] <;> omega
+
+/-- what the applied configuration DOES: after `Sync` of an accepted object (create or update, from any state) the
+    cluster holds exactly the endpoints the object names, each under the very string the object spells it with
+    (trailing slash, upper-case host, default port included), and every dispatch policy's picker resolves exactly
+    the endpoints the object says - its subset, else all - each of which `Pop` can load -/
+theorem c16_policies_resolve (env : Env) (known : List Known) (c : Cluster) (h : validate env known c = .ok [])
+    (ci ci' : ClusterInfo) (hs : ci.sync env c = .ok ci') (hn : ci.cluster = env.lower c.name) :
+    ci'.policies = c.policies ∧ (∀ x, x ∈ ci'.endpoints ↔ x ∈ c.servers.map (·.endpoint)) ∧
+    ∀ p ∈ c.policies, loadedUpstreams ci' p = resolveUpstreams ci' p ∧
+      (p.upstreamSubset ≠ [] → resolveUpstreams ci' p = p.upstreamSubset) ∧
+      (p.upstreamSubset = [] → resolveUpstreams ci' p = ci'.endpoints) :=
+  policies_resolve env known c ((c16_accepts_iff_valid env known c).mp h) ci ci' hs hn
+
+/-- ... and, on a cluster created from the object, the limiter a policy names is the one the object configures -/
+theorem c16_created_policy_limiter (env : Env) (henv : EnvOK env) (known : List Known) (c : Cluster)
+    (h : validate env known c = .ok []) (ht : ∀ s ∈ c.schemas, wellTyped s = true) (remote : Bool) :
+    ∃ ci, createClusterInfo env remote c = .ok ci ∧ ∀ p ∈ c.policies, ∀ s ∈ c.schemas,
+      p.flowControlSchemaName = s.name → resolveFlowControl ci p = expectedLocal s := by
+  obtain ⟨ci, hci, hfl⟩ := c16_created_limiters env henv known c h ht remote
+  refine ⟨ci, hci, ?_⟩
+  intro p _ s hs hname
+  have hn : namesOK c.schemas = true := (classes_of_accepted env known c h).2.2.2.2.2.1
+  have hne : s.name ≠ [] := by
+    have := namesOK_append_cons [] s [] (by
+      have := hn
+      induction c.schemas with
+      | nil => cases hs
+      | cons a l ih =>
+        simp only [namesOK, Bool.and_eq_true, decide_eq_true_eq] at this
+        simp only [List.mem_cons] at hs
+        rcases hs with rfl | hs
+        · simp [namesOK, this.1.1]
+        · exact ih hs this.2)
+    exact this.1
+  unfold resolveFlowControl
+  rw [hname, hfl, alGet_map_entryOf_some c.schemas hn s hs]
+  simp [hne]
 
 /-- the gateway's periodic reconcile with the limiter server (remote mode): a gateway that created the cluster from
     an accepted object, against a limiter server that handled the same object, runs any number of periods
